@@ -97,15 +97,26 @@ def outcome (r : R Val) (ip : Nat) (st : List Val) (scs : List Scope) (σ : SSta
 @[simp] theorem outcome_ok (v ip st scs σ lim) : outcome (.ok v) ip st scs σ lim = .ok (vm ip (v :: st) scs σ lim) := rfl
 @[simp] theorem outcome_error (e ip st scs σ lim) : outcome (.error e) ip st scs σ lim = .err e σ := rfl
 
+theorem Runs.congr_noPP {c P s s2 Q} (hr : Runs c P s Q) (h : noPP s = noPP s2) : Runs c P s2 Q :=
+  Reach.runs ⟨s2, .refl _, h.symm⟩ hr
+
+/-- what the result of executing one instruction has to satisfy for the run to end in `Q` -/
+def ExecPost (c : Cfg) (P : Prog) (x : RV VM) (Q : Res) : Prop :=
+  match x with
+  | .ok s' => Runs c P s' Q
+  | .error (e, s2) => Q = .err e (obs s2)
+
+theorem ExecPost.ok {c P s s' Q} (hr : Runs c P s Q) (h : noPP s = noPP s') : ExecPost c P (.ok s') Q :=
+  hr.congr_noPP h
+
 /-- the driver: execute the instruction at the head of a located segment -/
-theorem Runs.exec {c : Cfg} {P : Prog} {k : Nat} {i : LInstr} {r : List LInstr} {R : Res}
+theorem Runs.exec {c : Cfg} {P : Prog} {k : Nat} {i : LInstr} {r : List LInstr} {Q : Res}
     (h : CodeAt P k (i :: r)) {s : VM} (hs : s.ip = k)
-    (hx : match execI c P.consts i.instr { s with pp := k, ip := k + 1 } with
-          | .ok s' => Runs c P s' R
-          | .error (e, s2) => R = .err e (obs s2)) : Runs c P s R := by
+    (hx : ExecPost c P (execI c P.consts i.instr { s with pp := k, ip := k + 1 }) Q) : Runs c P s Q := by
   have hb := h.bytes
   have hst := step_at (c := c) hb s hs
   have hlt : s.ip < P.code.size := by rw [hs]; exact hb.lt
+  unfold ExecPost at hx
   cases hex : execI c P.consts i.instr { s with pp := k, ip := k + 1 } with
   | ok s' =>
     rw [hex] at hx hst
